@@ -41,6 +41,26 @@ class PageFeatureProcessor:
         if page_df_height == 0:
             return page_attrs
 
+        # Row-wise attributes are defined over the whole table: keep only the
+        # rows that belong to this page so that row i of the page reads its own
+        # attribute row
+        if page.row_start:
+            for attr_name in type(page_attrs).model_fields:
+                value = getattr(page_attrs, attr_name)
+                if (
+                    isinstance(value, list)
+                    and len(value) > 1
+                    and all(isinstance(row, list) for row in value)
+                ):
+                    setattr(
+                        page_attrs,
+                        attr_name,
+                        [
+                            value[(page.row_start + row_idx) % len(value)]
+                            for row_idx in range(page_df_height)
+                        ],
+                    )
+
         # Clear border_first and border_last from being broadcast to all rows
         if hasattr(page_attrs, "border_first") and page_attrs.border_first:
             page_attrs.border_first = None
